@@ -41,10 +41,14 @@ CLAIMS = {
               "exactly 'whitelisted (or all) and not blacklisted (or all)' for every stored group and namespace "
               "(check_iff_permitted), the blacklist wins (blacklist_wins), an empty whitelist permits nothing, a disabled "
               "group restricts nothing, every spelling of the default namespace is decided by the same list entry and needs "
-              "that entry like any other namespace (default_spellings_agree, default_needs_listing). Whether every handler "
+              "that entry like any other namespace (default_spellings_agree, default_needs_listing). How a user's group is stored and changed is modelled too (Privilege.addUser / updateUser = "
+              "UserManager::add_user / update_user): every list and flag an update names replaces the stored one, an empty list "
+              "included, what it does not name stays (update_sets_given_fields, update_keeps_unnamed_fields), so that revoking "
+              "works (cleared_whitelist_permits_nothing, update_blacklist_excludes). Whether every handler "
               "takes that decision is settled per endpoint by the sweep of the real console as restricted users: 37 data "
               "endpoints of both API versions x 50 privilege groups x 6 namespace spellings, writes verified through the "
-              "actors; the oracle applies the model's decision to each answer (nothing of an excluded namespace shown, no "
+              "actors; plus users created and changed through the console's own /user/add and /user/update and logged in through "
+              "the real /login/login (the session then carries what was stored, revocations included); the oracle applies the model's decision to each answer (nothing of an excluded namespace shown, no "
               "write there effective, nothing permitted refused). Known finding F18: ten v1 routes reuse the OpenAPI "
               "handlers without any check."),
         note=("trusted: Lean kernel; hand model RNacos/Model/Privilege.lean; the sweep harness's classification of answers; "
@@ -78,7 +82,9 @@ CLAIMS = {
               "token_carrier_order); the code's IGNORE_PATH grants nothing beyond the property's exceptions "
               "(ignore_within_exceptions, kernel-evaluated over the regenerated table); for ANY gRPC type string outside "
               "server/health check and the cluster types a missing session gives 403 (grpc_refused_without_session), "
-              "cluster types need the cluster token when configured (cluster_requests_need_token). Tie: tables "
+              "cluster types need the cluster token when configured (cluster_requests_need_token). Tie: a scenario with the real "
+              "binary (auth on, access tokens that live 3 s, real logins, kill + restart: an absent, made-up or outlived token is "
+              "answered 403 before and after every restart) and tables "
               "re-extracted by the translator each run + correspondence sweep of endpoints x spellings x carriers x "
               "token values through the real ApiCheckAuth/app_config and InvokerHandler::handle in-process; the oracle "
               "rejects any non-exempt data endpoint reached without a valid token (this found and fixed a real "
@@ -108,7 +114,8 @@ CLAIMS = {
         text=("Theorems (lean/RNacos/Props/C06.lean): what r-nacos adds to Raft on this path is telling the client the truth. "
               "The translator reads off the source, on every run, whether each of the 13 Results on the way of a "
               "configuration write (leader handler, client_write, local/remote/unknown route, leader-side routed request) is "
-              "propagated; with all propagated (all_results_propagated, kernel-evaluated) a client is told success only if "
+              "propagated, and whether the router's only success exit is the fall-through of the routing match (a success "
+              "answered before the write is routed acknowledges something nobody was asked to commit); with all propagated (all_results_propagated, kernel-evaluated) a client is told success only if "
               "Raft committed the entry, on every route and whatever happens to the messages (ack_implies_committed, "
               "uncommitted_is_error, committed_is_success); the repaired defect stays visible "
               "(dropped_result_acknowledges_uncommitted). Tie: translator + correspondence on a complete standalone node "
@@ -116,9 +123,9 @@ CLAIMS = {
               "fixed: F27. 'Committed entries survive and all nodes converge' is Raft's guarantee given the storage contract "
               "(C02-C05, C07); async-raft itself is trusted."),
         note=("partial: the multi-node part (kills, restarts, leader changes, SetTmpValue ordering on followers) is not "
-              "proved; it is Raft's guarantee plus runtime behaviour, explored on real 3-process clusters: two directed "
+              "proved; it is Raft's guarantee plus runtime behaviour, explored on real 3-process clusters: three directed "
               "scenarios in both tiers (the same key written through every node; the leader killed and followers written to "
-              "before the election), random fault scenarios in the thorough tier; the standalone node is also driven through "
+              "before the election; a key published through one node and removed through another right away, all six pairs), random fault scenarios in the thorough tier; the standalone node is also driven through "
               "handle_route, the leader's side of a forwarded write (rpub / rdel)"),
         technique="translator-regenerated call-site table + Lean 4 theorem (decision model of the answer) + differential correspondence on a real standalone node"),
     "C07": dict(
@@ -155,14 +162,19 @@ CLAIMS = {
               "have handed out; the SEQ_CONFIG branch of load_snapshot as a visible caveat) and for the user and cache tables "
               "(table_component_roundtrip, tables_ok_reachable; trees other than T_USER / T_CACHE are dropped on load: visible "
               "caveat) - both models are executed by the driver and must predict the ids the never-stopped node answers and "
-              "its T_SEQUENCE / T_USER / T_CACHE snapshot records byte for byte - and is a "
-              "hypothesis for the other three components (persistent instances, MCP, direct cache), checked by the correspondence: node R is "
+              "its T_SEQUENCE / T_USER / T_CACHE snapshot records byte for byte - for the registry's persistent instances on C11's "
+              "registry model (naming_component_roundtrip: for every state that satisfies C11's invariant, hence every reachable "
+              "one, a registry that loads the snapshot holds under every service and address exactly the persistent instance "
+              "the writer held, and no ephemeral one; Model/NamingSnap.lean is executed against the real NamingActor: ops "
+              "snap / reload through the real build_snapshot, snapshot writer/reader and load_snapshot_record) - and is a "
+              "hypothesis for the other two components (MCP, direct cache), checked by the correspondence: node R is "
               "compacted, restarted, killed, compacted-and-interrupted at arbitrary points and must dump the same served "
               "state as node L that never stops (component snapshot records, served configurations, served user namespaces, "
               "history ids drawn by the node itself). Found and fixed this way: F22 (stale tail of an interrupted snapshot "
               "resurrects deleted items)."),
-        note=("trusted: as C07; partial by construction: the configuration, namespace, sequence and table components' encoders are modelled; the other "
-              "three are compared through their own snapshot encoding and the configuration queries; the tables' own id sequences "
+        note=("trusted: as C07; partial by construction: the configuration, namespace, sequence, table and registry components' encoders are modelled (instance metadata, "
+              "cluster and application name are not part of the registry model); the other "
+              "two are compared through their own snapshot encoding and the configuration queries; the tables' own id sequences "
               "(TableInfo.seq, used by no request path) are not part of a snapshot; normType "
               "idempotence is a hypothesis (core String functions do not reduce in the kernel); the race between a snapshot "
               "build and concurrent applies is not reproduced; 1 open finding F23"),
@@ -266,7 +278,9 @@ CLAIMS = {
               "membership is recorded at once (install_records_membership). The first half of the property is FALSE on the "
               "current tree and stated as such (install_without_restart_is_stale): known finding F10, replayed on a real "
               "3-process cluster. Tie: translator + scenarios with real rnacos processes (two nodes, small snapshot "
-              "threshold, 30-70 writes, third node started late, restarted twice; all nodes' answers compared)."),
+              "threshold, 30-70 writes, third node started late, restarted twice; all nodes' answers compared) + the deterministic "
+              "installation path of the apply harness (the leader's snapshot reaches the joiner's RaftStorage in chunks written "
+              "at their offsets, one of them twice - async-raft's retransmission)."),
         note=("partial: the model states the composition (install, restart) for an arbitrary state; that the snapshot file "
               "carries every component is C01/C07; when a snapshot is sent is async-raft's decision (trusted); settling "
               "times are generous bounds; 1 open finding F10"),
@@ -282,7 +296,8 @@ CLAIMS = {
               "a batch's effect (coalescing_sound). That the queues do drain is liveness over the real scheduler: explored on "
               "real 3-process clusters (HTTP registrations addressed to arbitrary nodes, a kill/restart in between, lists of "
               "every node compared after settling; directed scenarios: a rolling replacement through every node, heart-beating "
-              "clients of which one deregisters right after a beat - compared after the owner's next heartbeat flush)."),
+              "clients of which one deregisters right after a beat - compared after the owner's next heartbeat flush; a node "
+              "restarted at once while its only gRPC client withdraws its instance - the others must forget it)."),
         note=("partial: safety form of convergence only; 'eventually', node-death detection and gRPC-held instances are not "
               "proved - they are exercised by directed scenarios (gRPC clients = the nacos_rust_client crate: the node a client "
               "is connected to is killed, a node that learned the instances by snapshot must drop them too; class flips; "
